@@ -126,16 +126,21 @@ def build_driver(chk, top, gen, libdir, dom, cpp, facts, allmap):
     return exe, g
 
 
-def build_misc(chk, top, gen, libdir):
+OPTIONAL_ENTRIES = ["ppl_new_Linear_Expression_from_Grid_Generator"]     # called by the harness only when defined
+
+
+def build_misc(chk, top, gen, libdir, facts):
     src = os.path.join(common.VERIF, "harness", "run_cif_misc.cc")
     support = open(os.path.join(common.VERIF, "harness", "cif_support.hh"), "rb").read()
-    key = hashlib.sha256(open(src, "rb").read() + support).hexdigest()[:12]
+    names = {e["name"] for e in facts["entries"]}
+    opt = ["-DCIF_HAVE_" + n for n in OPTIONAL_ENTRIES if n in names]
+    key = hashlib.sha256(open(src, "rb").read() + support + " ".join(opt).encode()).hexdigest()[:12]
     ddir = os.path.join(top, "drv-" + os.path.basename(libdir))
     os.makedirs(ddir, exist_ok=True)
     exe = os.path.join(ddir, "misc_%s" % key)
     if not os.path.exists(exe):
         objs, _ = T.build_objects(top, gen, libdir, ["implementation_common", "Polyhedron"], chk.log)
-        flags = ["-std=c++11", "-DHAVE_CONFIG_H", "-I" + os.path.join(common.VERIF, "harness")] + T.include_flags(gen, libdir) + ["-O0", "-frounding-math", "-w"]
+        flags = ["-std=c++11", "-DHAVE_CONFIG_H", "-I" + os.path.join(common.VERIF, "harness")] + T.include_flags(gen, libdir) + ["-O0", "-frounding-math", "-w"] + opt
         for attempt in range(4):
             libdir2 = common.build_lib("mpz")
             rc, out = common.sh(["g++"] + flags + [src] + objs + [os.path.join(libdir2, "libppl_verif.a"), "-lgmpxx", "-lgmp", "-o", exe + ".tmp"], timeout=1800)
@@ -342,7 +347,7 @@ def run(chk):
         judge_lines(chk, facts, dom, lines, stats)
         chk.log("domain %s: %d entries driven, %d not driven, %d lines in %.1fs" % (dom, len(g.driven), len(g.undriven), len(lines), time.time() - t0))
     # ---- hand-written part: time-outs, entry without try, MIP domain errors, common entries
-    exe = build_misc(chk, top, gen, libdir)
+    exe = build_misc(chk, top, gen, libdir, facts)
     rc, out = common.sh([exe, "16"], timeout=300)
     if rc != 0:
         chk.failure({"site": "run_cif_misc", "condition": "driver-crashed"}, {"exit": rc, "tail": out[-800:]})
